@@ -16,7 +16,8 @@ RULE = ("cases = scripts with 1..3 CREATE SEQUENCE statements between neighbour 
         "INCREMENT [BY], START [WITH], MINVALUE n | NO MINVALUE, MAXVALUE n | NO MAXVALUE, CACHE [n], ORDER | NOORDER "
         "(exhaustive over orders, seeded choice of spelling variant and value), then random; values from {0, +-1, +-small, "
         "+-2^31, +-(2^63-1), -2^63, leading '+'}; keyword case random; one option per line or single line. "
-        "Non-trivial = at least one option present; distinct = distinct DDL text.")
+        "Non-trivial = at least one option present; distinct = distinct DDL text."
+        " Added after seeded defects: verbatim names with dots inside quotes and names spelled like the option keywords behind a schema.")
 ASSUMPTIONS = ["each option appears at most once per sequence", "IF NOT EXISTS on sequences is not named by the property and not generated"]
 MIN_EVENTS = {"statements": 50, "run_return": 50}
 
